@@ -11,14 +11,15 @@ def main(tier, replay=None):
         dict(scn="c19", name="pop3d-state-graph", opts=["mode=pop3d", "fulldepth=%d" % (2 if q else 3)] + ([] if q else ["thorough=1"]), bounds="0,0,0,0", total=0, deadline=1800, qcap=0 if q else 8000000),
         dict(scn="c19", name="popup-sessions", opts=["mode=popup", "maxdepth=%d" % (3 if q else 4)], bounds="0,0,0,0", total=0, deadline=900),
     ]
+    fams.append(dict(scn="c19", name="pop3d-clock-after-2038", opts=["mode=pop3d", "fulldepth=1", "epoch=2147483748"], bounds="0,0,0,0", total=0, deadline=900))
     fams.append(dict(scn="c19", name="pop3d-message-file-errors", opts=["mode=pop3d", "maxdepth=%d" % (1 if q else 2)], bounds="0,1,0,0", total=1, deadline=1200))
     plain_src = run_families(res, "C19", tier, fams)
     res.rule = ("pop3d: explicit-state exploration on the real qmail-pop3d under the virtual kernel: for each maildir population (empty; new/ and cur/; "
-                "dot-leading lines, no final newline, empty and header-only files, hidden/future/tmp files) sessions are extended one command "
+                "dot-leading lines, no final newline, empty and header-only files, files stored with CR LF line ends and a bare CR, hidden/future/tmp files) sessions are extended one command "
                 "at a time from the alphabet {STAT, LIST [k], UIDL [k], DELE k, RETR k, TOP k j, RSET, LAST, NOOP, QUIT, unknown, lower case, a file "
                 "vanishing, disconnect} with k in {0,1,2,n,n+1,2^32+1,2^64+1,x,empty}, j in {0,1,99}; a session stops at a state (deletion marks, "
                 "vanished files) that was already extended - but never before its %d-th command, so every command is also seen directly after every other command (state the model does not know of, e.g. read-ahead of the previous message) - so every (state, command) transition of the reachable graph is executed at least once and "
-                "compared with an RFC 1939 reference; the maildir is compared after QUIT / disconnect; uid 0 must be refused; popup: every "
+                "compared with an RFC 1939 reference; the maildir is compared after QUIT / disconnect; the same graph with the clock at 2^31+100 s (time stamps beyond 31 bits); uid 0 must be refused; popup: every "
                 "sequence of up to 3 (4) lines from 17 pre-authentication commands, replies and the bytes received by the checker on descriptor 3" % (3 if q else 4))
     res.assumptions = ["STAT's message count and LAST's value are outside the comparison (property text)", "messages have pairwise distinct mtimes (order among equal mtimes is unspecified)"]
     res.require_nonzero("evaluations", "replies_checked", "sessions_quit", "sessions_disconnected", "files_vanished", "root_refusals", "authentications", "sessions_merged_into_visited_state")
